@@ -133,6 +133,45 @@ static std::string nuc_op(index_t mode, real_t λ, real_t γ, length_t r, length
     }
 }
 
+// The GENERIC default of the prox_step customisation point (prox.hpp, `prox_step_fn`: "Default
+// implementation for prox_step if only prox is provided") — selected for every functor that provides
+// prox but no prox_step of its own (L1Norm, L1NormComplex, NuclearNorm).  Output: `out fb_step # h`.
+template <class F>
+static std::string gps_vec(F &f, const vec &in, const vec &fwd, real_t γ, real_t γf, bool h_bitexact) {
+    static_assert(!alpaqa::tag_invocable<alpaqa::prox_step_fn, F &, crmat, crmat, rmat, rmat, real_t, real_t>,
+                  "this functor has its own prox_step: the generic default is not what runs");
+    vec out = vec::Constant(in.size(), std::nan("")), fb = vec::Constant(in.size(), std::nan(""));
+    real_t h = alpaqa::prox_step(f, in, fwd, out, fb, γ, γf);
+    // h of the complex norm goes through hypot (compared by the monitor, not bit for bit): after ` # `
+    if (h_bitexact)
+        return vp::f2h(h) + ' ' + vp::fmtv(out) + ' ' + vp::fmtv(fb);
+    return vp::fmtv(out) + ' ' + vp::fmtv(fb) + " # " + vp::f2h(h);
+}
+
+// NuclearNorm through the generic prox_step default (matrix in / fwd_step / out / fb_step).
+static std::string gps_nuc(index_t mode, real_t λ, real_t γ, real_t γf, length_t r, length_t c,
+                           const vec &a, const vec &d) {
+    mat A = a.reshaped(r, c), Dm = d.reshaped(r, c);
+    mat out = mat::Constant(r, c, std::nan("")), fb = mat::Constant(r, c, std::nan(""));
+    auto run = [&](auto &f) -> std::string {
+        real_t value = alpaqa::prox_step(f, A, Dm, out, fb, γ, γf);
+        if (λ == 0)
+            return "Z " + vp::f2h(value) + ' ' + fmtm(out) + ' ' + fmtm(fb);
+        bool uv = f.svd.computeU() && f.svd.computeV();
+        std::string s = "S " + vp::fmtv(f.singular_values) + ' ' + vp::f2h(value) + ' ' + fmtm(out) + ' ' +
+                        fmtm(fb) + " # " + (uv ? "1 " : "0 ") + vp::fmtv(f.svd.singularValues());
+        if (uv)
+            s += ' ' + fmtm(f.svd.matrixU()) + ' ' + fmtm(f.svd.matrixV());
+        return s;
+    };
+    if (mode == 0) {
+        alpaqa::functions::NuclearNorm<config_t> f{λ};
+        return run(f);
+    }
+    alpaqa::functions::NuclearNorm<config_t> f{λ, r, c};
+    return run(f);
+}
+
 int main() {
     std::string line;
     while (std::getline(std::cin, line)) {
@@ -171,11 +210,12 @@ int main() {
                 real_t h2 = alpaqa::prox(b, v, o2, 1.0);
                 std::cout << vp::fmtv(o1) << ' ' << vp::f2h(h2) << ' ' << vp::fmtv(o2) << '\n';
             } else if (op == "pstep") {
-                real_t γf = t.flt();
+                // Box has its own prox_step overload (γ is documented as unused: pass γ ≠ 1)
+                real_t γ = t.flt(), γf = t.flt();
                 vec x = t.vec(), d = t.vec(), lb = t.vec(), ub = t.vec();
                 Box b = Box::from_lower_upper(lb, ub);
-                vec out(x.size()), fb(x.size());
-                real_t h = alpaqa::prox_step(b, x, d, out, fb, 1.0, γf);
+                vec out = vec::Constant(x.size(), std::nan("")), fb = vec::Constant(x.size(), std::nan(""));
+                real_t h = alpaqa::prox_step(b, x, d, out, fb, γ, γf);
                 std::cout << vp::f2h(h) << ' ' << vp::fmtv(out) << ' ' << vp::fmtv(fb) << '\n';
             } else if (op == "l1s") {
                 real_t λ = t.flt(), γ = t.flt();
@@ -210,6 +250,38 @@ int main() {
                 length_t r = t.nat(), c = t.nat();
                 vec a = t.vec();
                 std::cout << in_child([&] { return nuc_op(mode, λ, γ, r, c, a); }) << '\n';
+            } else if (op == "gps") {
+                std::string kind = t.tok();
+                if (kind == "nuc") {
+                    index_t mode = t.nat();
+                    real_t λ = t.flt(), γ = t.flt(), γf = t.flt();
+                    length_t r = t.nat(), c = t.nat();
+                    vec a = t.vec(), d = t.vec();
+                    std::cout << in_child([&] { return gps_nuc(mode, λ, γ, γf, r, c, a, d); }) << '\n';
+                } else if (kind == "l1s" || kind == "cl1s") {
+                    real_t λ = t.flt(), γ = t.flt(), γf = t.flt();
+                    vec in = t.vec(), fwd = t.vec();
+                    if (kind == "l1s") {
+                        alpaqa::functions::L1Norm<config_t> f{λ};
+                        std::cout << gps_vec(f, in, fwd, γ, γf, true) << '\n';
+                    } else {
+                        alpaqa::functions::L1NormComplex<config_t> f{λ};
+                        std::cout << gps_vec(f, in, fwd, γ, γf, false) << '\n';
+                    }
+                } else if (kind == "l1v" || kind == "cl1v") {
+                    vec λ    = t.vec();
+                    real_t γ = t.flt(), γf = t.flt();
+                    vec in = t.vec(), fwd = t.vec();
+                    if (kind == "l1v") {
+                        alpaqa::functions::L1Norm<config_t, vec> f{λ};
+                        std::cout << gps_vec(f, in, fwd, γ, γf, true) << '\n';
+                    } else {
+                        alpaqa::functions::L1NormComplex<config_t, vec> f{λ};
+                        std::cout << gps_vec(f, in, fwd, γ, γf, false) << '\n';
+                    }
+                } else {
+                    std::cout << "bad-op\n";
+                }
             } else if (op == "unc") {
                 real_t γ = t.flt();
                 vec x = t.vec(), g = t.vec();
